@@ -8,6 +8,7 @@ import (
 	"os"
 	"path/filepath"
 	"syscall"
+	"time"
 
 	"github.com/caddyserver/caddy/v2"
 
@@ -141,5 +142,22 @@ func WritePEM(dir, name string, cert *x509.Certificate) string {
 	if err := os.WriteFile(p, b, 0644); err != nil {
 		panic(err)
 	}
+	return p
+}
+
+// WritePEMSameStat writes a certificate as PEM file padded with line feeds to 4096 bytes and gives the file a fixed
+// modification time: whichever certificate such a file holds, the file system reports the same size and time (what
+// deployment tools which preserve time stamps, or renewals of a certificate, produce).
+func WritePEMSameStat(dir, name string, cert *x509.Certificate) string {
+	p := filepath.Join(dir, name)
+	b := pem.EncodeToMemory(&pem.Block{Type: "CERTIFICATE", Bytes: cert.Raw})
+	for len(b) < 4096 {
+		b = append(b, '\n')
+	}
+	if err := os.WriteFile(p, b, 0644); err != nil {
+		panic(err)
+	}
+	t := time.Date(2020, 1, 1, 0, 0, 0, 0, time.UTC)
+	os.Chtimes(p, t, t)
 	return p
 }
